@@ -348,6 +348,9 @@ theorem C14_facts_no_other_shared_state :
         ("engine.defaultWriteOptions", "builtin.go", "numberCodesWrite", "addr"),
         ("engine.defaultWriteOptions", "exception.go", "Exception.Error", "addr"),
         ("engine.dummyCutParent", "promise.go", "cut", "addr"),
+        -- (the comparison `p.cutParent != &dummyCutParent` of the double-cut repair 0088de9: the
+        --  sentinel is recognised so that it is never written to)
+        ("engine.dummyCutParent", "promise.go", "Promise.Force", "addr"),
         ("engine.varCounter", "variable.go", "NewVariable", "atomic.AddInt64") ] ∧
     SharedState.packageVars = expectedPackageVars ∧
     SharedState.atomVarsOddInit = [] ∧
